@@ -8,9 +8,13 @@ import (
 	"fmt"
 	"io"
 	"log"
+	"math"
+	"strconv"
 	"strings"
 
 	"github.com/EliCDavis/polyform/modeling"
+	"github.com/EliCDavis/polyform/modeling/meshops"
+	"github.com/EliCDavis/vector/vector3"
 )
 
 func init() { streams["c03"] = runC03 }
@@ -30,7 +34,25 @@ func isIdentity(m modeling.Mesh) bool {
 
 // emitOp writes the correspondence line and the oracle line(s) of one applied operation
 func (c *Ctx) emitOp03(r opRun, m modeling.Mesh) {
-	c.Emit("c03.op."+r.name, r.args, r.answer(meshStr))
+	if r.name == "laplacian" {
+		// split: shape exact, smoothed attribute within tolerance; the other attributes exactly via frame_spec
+		attr := strings.Fields(r.args)[0]
+		c.Emit("c03.op.laplacian_shape", r.args, r.answer(shapeStr))
+		c.Emit("c03.op.laplacian", r.args, r.answer(func(o modeling.Mesh) string {
+			if !o.HasFloat3Attribute(attr) {
+				return "A 0"
+			}
+			d := o.Float3Attribute(attr)
+			parts := []string{"A", strconv.Itoa(d.Len())}
+			for i := 0; i < d.Len(); i++ {
+				v := d.At(i)
+				parts = append(parts, fsN(v.X(), v.Y(), v.Z()))
+			}
+			return strings.Join(parts, " ")
+		}))
+	} else {
+		c.Emit("c03.op."+r.name, r.args, r.answer(meshStr))
+	}
 	if r.status != "" {
 		c.Note("op-" + r.status + ":" + r.name)
 		return
@@ -92,8 +114,30 @@ func (c *Ctx) emitOp03(r opRun, m modeling.Mesh) {
 	}
 }
 
+// corpusC03: the float-only branches that the value theorems over ℝ exclude, forced on every run
+func (c *Ctx) corpusC03() {
+	nan := math.NaN()
+	pos := []vector3.Float64{vector3.New(0., 0., 0.), vector3.New(1., 0., 0.), vector3.New(0., 1., 0.), vector3.New(0., 0., 1.), vector3.New(2., 2., 2.)}
+	// (1) SmoothNormals: a referenced triangle with a NaN vertex -> cross.X is NaN -> the triangle is skipped
+	p1 := append([]vector3.Float64{}, pos...)
+	p1[3] = vector3.New(0, nan, 1) // NaN must reach the X component of the cross product: only X is tested
+	m1 := modeling.NewTriangleMesh([]int{0, 1, 2, 0, 1, 3}).SetFloat3Attribute(modeling.PositionAttribute, p1)
+	c.emitOp03(c.applyOp("smoothnormals", m1), m1)
+	// (2) FlatNormals: (a, a, b) is the LAST face of vertices 0 and 3 -> normalize(0) = NaN
+	m2 := modeling.NewTriangleMesh([]int{0, 1, 2, 0, 0, 3}).SetFloat3Attribute(modeling.PositionAttribute, pos)
+	c.emitOp03(c.applyOp("flatnormals", m2), m2)
+	// (3) Laplacian: vertex 4 is referenced by no triangle -> sum / 0 = NaN, 2 iterations
+	m3 := modeling.NewTriangleMesh([]int{0, 1, 2, 0, 2, 3}).SetFloat3Attribute(modeling.PositionAttribute, pos)
+	r := runOp("laplacian", fmt.Sprintf("%s 2 %s %s", modeling.PositionAttribute, F(0.5), meshStr(m3)), false, func() []modeling.Mesh {
+		return one(meshops.LaplacianSmooth(m3, modeling.PositionAttribute, 2, 0.5))
+	})
+	c.noteFloatOnly("laplacian", m3, modeling.PositionAttribute, 2)
+	c.emitOp03(r, m3)
+}
+
 func runC03(c *Ctx) {
 	log.SetOutput(io.Discard)
+	c.corpusC03()
 	all := append(append([]string{}, layoutOps...), transformOps...)
 	for s := 0; s < c.N; s++ {
 		c.guardSeq("c03.holds.harness_ok", func() { c.seq03(all) })
